@@ -560,29 +560,30 @@ Proof.
 Qed.
 
 (* --- ReadLine: the returned line followed by the dropped terminator is the slice of S that was consumed *)
-Definition line_law (s s' : reader) (d : bytes) : Prop :=
+Definition line_law (s s' : reader) (d : bytes) (pre : bool) : Prop :=
   exists term, sub S (rtotal s) (rtotal s') = d ++ term /\ (term = [] \/ term = [10] \/ term = [13; 10]) /\
-               rtotal s' = rtotal s + blen d + blen term.
+               rtotal s' = rtotal s + blen d + blen term /\ (pre = true -> term = []).
 
 Lemma rev_eq_app (l : bytes) x r : rev l = x :: r -> l = rev r ++ [x].
 Proof. intros H. rewrite <- (rev_involutive l), H. reflexivity. Qed.
 
-Lemma rd_line_S s d pre e s' : InvS s -> rd_line s = (d, pre, e, s') -> InvS s' /\ line_law s s' d.
+Lemma rd_line_S s d pre e s' : InvS s -> rd_line s = (d, pre, e, s') -> InvS s' /\ line_law s s' d pre.
 Proof.
   intros HS. unfold rd_line. destruct (rd_slice 10 s) as [[line err] s1] eqn:Es.
   destruct (rd_slice_S 10 s line err s1 HS Es) as (HS1 & [Hd1 Hd2] & Hp).
-  assert (Hkeep : forall term, line = d ++ term -> (term = [] \/ term = [10] \/ term = [13; 10]) -> line_law s s1 d).
-  { intros term -> Hterm. exists term. split; [|split; [exact Hterm|]].
+  assert (Hkeep : forall term, line = d ++ term -> (term = [] \/ term = [10] \/ term = [13; 10]) ->
+            (pre = true -> term = []) -> line_law s s1 d pre).
+  { intros term -> Hterm Hpre. exists term. split; [|split; [exact Hterm|split; [|exact Hpre]]].
     - rewrite Hd2. exact (eq_sym Hd1).
     - rewrite Hd2, blen_app. lia. }
   destruct (err =? 3).
   - destruct (rev line) as [|c rl] eqn:Er.
-    + intros E; inversion E; subst. split; [exact HS1|]. apply (Hkeep []); [rewrite app_nil_r; reflexivity|left; reflexivity].
+    + intros E; inversion E; subst. split; [exact HS1|]. apply (Hkeep []); [rewrite app_nil_r; reflexivity|left; reflexivity|intros _; reflexivity].
     + apply rev_eq_app in Er.
       assert (Hne : line <> []) by (rewrite Er; destruct (rev rl); discriminate).
       destruct (Hp Hne) as (HPB & Hr1).
-      assert (Hother : (line, true, 0, s1) = (d, pre, e, s') -> InvS s' /\ line_law s s' d).
-      { intros E; inversion E; subst. split; [exact HS1|]. apply (Hkeep []); [rewrite app_nil_r; reflexivity|left; reflexivity]. }
+      assert (Hother : (line, true, 0, s1) = (d, pre, e, s') -> InvS s' /\ line_law s s' d pre).
+      { intros E; inversion E; subst. split; [exact HS1|]. apply (Hkeep []); [rewrite app_nil_r; reflexivity|left; reflexivity|intros _; reflexivity]. }
       destruct (Z.eq_dec c 13) as [->|Hc]; [|destruct c as [|p|p]; try exact Hother;
         repeat (destruct p as [p|p|]; try exact Hother); congruence].
       intros E; inversion E; subst; clear E.
@@ -603,7 +604,7 @@ Proof.
            rewrite (HPB (rr s1 - 1) ltac:(lia)). simpl. do 3 f_equal. lia.
         -- split; [right; intros i Hi; cbn [rbuf rr rtotal] in *; rewrite (HPB i ltac:(lia)); f_equal; lia|].
            unfold LastOK. cbn [rlast rr rw rtotal]. lia.
-      * exists []. rewrite app_nil_r. unfold s2. cbn [rtotal]. change (blen []) with 0. split; [|split; [left; reflexivity|lia]].
+      * exists []. rewrite app_nil_r. unfold s2. cbn [rtotal]. change (blen []) with 0. split; [|split; [left; reflexivity|split; [lia|reflexivity]]].
         rewrite Hd2, Hlenl. replace (rtotal s + (blen (rev rl) + 1) - 1) with (rtotal s + blen (rev rl)) by lia.
         rewrite Hlenl in Hd1.
         assert (Hf : sub S (rtotal s) (rtotal s + blen (rev rl)) =
@@ -612,19 +613,19 @@ Proof.
         rewrite Hf, <- Hd1. unfold blen. rewrite Nat2Z.id, firstn_app, Nat.sub_diag, firstn_all. simpl. apply app_nil_r.
   - destruct (rev line) as [|c rl] eqn:Er.
     + assert (line = []) by (destruct line as [|x l]; [reflexivity|]; simpl in Er; destruct (rev l); discriminate).
-      subst line. intros E; inversion E; subst. split; [exact HS1|]. apply (Hkeep []); [reflexivity|left; reflexivity].
+      subst line. intros E; inversion E; subst. split; [exact HS1|]. apply (Hkeep []); [reflexivity|left; reflexivity|intros _; reflexivity].
     + apply rev_eq_app in Er.
-      assert (Hother : (line, false, 0, s1) = (d, pre, e, s') -> InvS s' /\ line_law s s' d).
-      { intros E; inversion E; subst. split; [exact HS1|]. apply (Hkeep []); [rewrite app_nil_r; reflexivity|left; reflexivity]. }
+      assert (Hother : (line, false, 0, s1) = (d, pre, e, s') -> InvS s' /\ line_law s s' d pre).
+      { intros E; inversion E; subst. split; [exact HS1|]. apply (Hkeep []); [rewrite app_nil_r; reflexivity|left; reflexivity|intros _; reflexivity]. }
       destruct (Z.eq_dec c 10) as [->|Hc]; [|destruct c as [|p|p]; try exact Hother;
         repeat (destruct p as [p|p|]; try exact Hother); congruence].
-      assert (Hten : (rev rl, false, 0, s1) = (d, pre, e, s') -> InvS s' /\ line_law s s' d).
-      { intros E; inversion E; subst. split; [exact HS1|]. apply (Hkeep [10]); [reflexivity|right; left; reflexivity]. }
+      assert (Hten : (rev rl, false, 0, s1) = (d, pre, e, s') -> InvS s' /\ line_law s s' d pre).
+      { intros E; inversion E; subst. split; [exact HS1|]. apply (Hkeep [10]); [reflexivity|right; left; reflexivity|discriminate]. }
       destruct rl as [|c2 rl2]; [exact Hten|].
       destruct (Z.eq_dec c2 13) as [->|Hc2]; [|destruct c2 as [|p|p]; try exact Hten;
         repeat (destruct p as [p|p|]; try exact Hten); congruence].
       intros E; inversion E; subst. split; [exact HS1|].
-      apply (Hkeep [13; 10]); [simpl; rewrite <- app_assoc; reflexivity|right; right; reflexivity].
+      apply (Hkeep [13; 10]); [simpl; rewrite <- app_assoc; reflexivity|right; right; reflexivity|discriminate].
 Qed.
 
 (* --- Peek: the data is the slice of S at the position, nothing is consumed *)
@@ -668,7 +669,8 @@ Definition obs_law (pos : Z) (op : val) (ret : list val) (t : Z) : Prop :=
   | VL [VZ 3], [VZ e] => if e =? 0 then t = pos - 1 else t = pos
   | VL [VZ 4; VZ delim], [VB d; VZ e] => d = sub S pos (pos + blen d) /\ t = pos + blen d
   | VL [VZ 5], [VB d; VZ pre; VZ e] =>
-    exists term, sub S pos t = d ++ term /\ (term = [] \/ term = [10] \/ term = [13; 10]) /\ t = pos + blen d + blen term
+    exists term, sub S pos t = d ++ term /\ (term = [] \/ term = [10] \/ term = [13; 10]) /\ t = pos + blen d + blen term /\
+                 (negb (pre =? 0) = true -> term = [])
   | VL [VZ 6; VZ n], [VB d; VZ e] => d = sub S pos (pos + blen d) /\ t = pos
   | VL [VZ 8; VZ delim], [VB d; VZ e] => d = sub S pos (pos + blen d) /\ t = pos + blen d
   | VL [VZ 9], [VB d; VZ n; VZ e] => d = sub S pos (pos + blen d) /\ t = pos + blen d /\ n = blen d
@@ -682,16 +684,18 @@ Fixpoint trace_ok (pos : Z) (ops obs : list val) {struct ops} : Prop :=
   | _, _ => False
   end.
 
-Lemma reader_step_S op s o s' : InvS s -> reader_step op s = Some (o, s') ->
+Lemma reader_step_S op s lrs o s' lrs' : InvS s -> rune_free op = true -> reader_step false op (s, lrs) = Some (o, (s', lrs')) ->
   InvS s' /\ exists ret, o = VL [VL ret; VZ (rtotal s'); VZ (rpulled s'); VZ (buffered s')] /\
                         obs_law (rtotal s) op ret (rtotal s').
 Proof.
-  intros HS. unfold reader_step.
+  intros HS. unfold reader_step, rune_free.
   destruct op as [z|b|l]; try discriminate.
   destruct l as [|[tag| |] l]; try discriminate.
   destruct tag as [|p|p]; try discriminate.
   repeat (destruct p as [p|p|]; try discriminate).
+  all: intros Hrf; try (vm_compute in Hrf; discriminate Hrf).
   all: destruct l as [|[n| |] [|? ?]]; try discriminate.
+  all: try (destruct (rd_slice 10 s) as [[line0 ?] ?] eqn:E0).
   - (* 9 *) destruct (rd_writeto s) as [[d e] s1] eqn:E. intros H; inversion H; subst.
     destruct (rd_writeto_S s d e s' HS E) as (HS1 & [HL1 HL2]). split; [exact HS1|].
     eexists. split; [reflexivity|]. unfold obs_law. split; [exact HL1|split; [exact HL2|reflexivity]].
@@ -719,15 +723,16 @@ Proof.
     eexists. split; [reflexivity|]. exact HL.
 Qed.
 
-Theorem reader_run_S : forall ops s obs, InvS s -> reader_run ops s = Some obs ->
-  trace_ok (rtotal s) ops obs.
+Theorem reader_run_S : forall ops s lrs obs, InvS s -> forallb rune_free ops = true ->
+  reader_run false ops (s, lrs) = Some obs -> trace_ok (rtotal s) ops obs.
 Proof.
-  induction ops as [|op ops IH]; intros s obs HS; cbn [reader_run].
+  induction ops as [|op ops IH]; intros s lrs obs HS Hrf; cbn [reader_run].
   - intros E; inversion E; subst. exact I.
-  - destruct (reader_step op s) as [[o s1]|] eqn:Es; [|discriminate].
-    destruct (reader_step_S op s o s1 HS Es) as [HS1 [ret [Ho HL]]].
-    destruct (reader_run ops s1) as [os|] eqn:Er; [|discriminate].
-    intros E; inversion E; subst. cbn [trace_ok]. split; [exact HL|]. apply (IH s1 os HS1 Er).
+  - cbn [forallb] in Hrf. apply andb_true_iff in Hrf. destruct Hrf as [Hr1 Hr2].
+    destruct (reader_step false op (s, lrs)) as [[o [s1 l1]]|] eqn:Es; [|discriminate].
+    destruct (reader_step_S op s lrs o s1 l1 HS Hr1 Es) as [HS1 [ret [Ho HL]]].
+    destruct (reader_run false ops (s1, l1)) as [os|] eqn:Er; [|discriminate].
+    intros E; inversion E; subst. cbn [trace_ok]. split; [exact HL|]. apply (IH s1 l1 os HS1 Hr2 Er).
 Qed.
 End Stream.
 
@@ -741,19 +746,20 @@ Proof.
 Qed.
 
 Theorem reader_stream size src ops obs : Forall (fun b => 0 <= b) (script_stream src) ->
-  reader_run ops (new_reader size src) = Some obs ->
+  forallb rune_free ops = true ->
+  reader_run false ops (new_reader size src, -1) = Some obs ->
   trace_ok (script_stream src) 0 ops obs.
 Proof.
-  intros Hwf Hrun.
-  apply (reader_run_S (script_stream src) Hwf ops (new_reader size src) obs (new_reader_invS size src) Hrun).
+  intros Hwf Hrf Hrun.
+  apply (reader_run_S (script_stream src) Hwf ops (new_reader size src) (-1) obs (new_reader_invS size src) Hrf Hrun).
 Qed.
 
 Lemma reader_stream_example :
   let src := [([97;98;99;10], 0); ([100;13], 0); ([10;101], 1)] in
   let ops := [VL [VZ 2]; VL [VZ 4; VZ 10]; VL [VZ 3]; VL [VZ 2]; VL [VZ 6; VZ 3]; VL [VZ 5]; VL [VZ 1; VZ 40]; VL [VZ 3]; VL [VZ 8; VZ 10]; VL [VZ 9]] in
   Forall (fun b => 0 <= b) (script_stream src) /\
-  exists obs, reader_run ops (new_reader 16 src) = Some obs.
-Proof. cbn zeta. split; [repeat constructor; lia|]. eexists. vm_compute. reflexivity. Qed.
+  forallb rune_free ops = true /\ exists obs, reader_run false ops (new_reader 16 src, -1) = Some obs.
+Proof. cbn zeta. split; [repeat constructor; lia|]. split; [reflexivity|]. eexists. vm_compute. reflexivity. Qed.
 
 (* ---------- Writer stream: sink ++ buffer is exactly the sequence of accepted bytes ---------- *)
 Lemma firstn_app_exact_own {A} (l t : list A) : firstn (length l) (l ++ t) = l.
@@ -947,6 +953,34 @@ Proof.
     + intros E; inversion E; subst. split; [apply Hend; reflexivity|exact Hbound].
 Qed.
 
+Lemma w_write_rune_wall r s n e s' : WInv s -> w_write_rune r s = (n, e, s') ->
+  let enc := if r <? 128 then [r mod 256] else encode_rune r in
+  0 <= n <= blen enc /\ wall s' = wall s ++ firstn (Z.to_nat n) enc /\ (n < blen enc -> e <> 0).
+Proof.
+  unfold w_write_rune. intros HI. destruct (r <? 128) eqn:Er; cbn zeta.
+  - destruct (w_write_byte (r mod 256) s) as [e1 s1] eqn:E1. pose proof (w_write_byte_wall _ _ _ _ HI E1) as Hw.
+    change (blen [r mod 256]) with 1.
+    destruct (e1 =? 0) eqn:E0; cbn [negb]; intros E; inversion E; subst; clear E.
+    + split; [lia|]. split; [exact Hw|lia].
+    + split; [lia|]. split; [exact Hw|lia].
+  - pose proof (encode_rune_len r) as Hlen.
+    destruct (negb (werr s =? 0)) eqn:Ee.
+    + intros E; inversion E; subst. split; [lia|]. split; [simpl; rewrite app_nil_r; reflexivity|lia].
+    + assert (Happ : forall s1, wall (w_add_total (w_set s1 (wbuf s1 ++ encode_rune r) (werr s1)) (blen (encode_rune r)))
+                        = wall s1 ++ firstn (Z.to_nat (blen (encode_rune r))) (encode_rune r)).
+      { intros s1. unfold wall, w_add_total, w_set. cbn [wout wbuf]. unfold blen. rewrite Nat2Z.id, firstn_all, app_assoc. reflexivity. }
+      destruct (avail s <? 4).
+      * destruct (w_flush s) as [fe s1] eqn:Ef. destruct (w_flush_inv _ _ _ _ HI Ef) as (HI1 & _).
+        pose proof (w_flush_wall _ _ _ Ef) as Hw.
+        destruct (negb (werr s1 =? 0)) eqn:Ee1.
+        -- intros E; inversion E; subst. split; [lia|]. split; [simpl; rewrite app_nil_r; exact Hw|lia].
+        -- destruct (avail s1 <? 4).
+           ++ intros E. destruct (w_write_gen_wall false _ _ _ _ _ HI1 E) as (H1 & H2 & H3). rewrite Hw in H2.
+              split; [exact H1|split; [exact H2|exact H3]].
+           ++ intros E; inversion E; subst. split; [lia|]. split; [rewrite Happ, Hw; reflexivity|lia].
+      * intros E; inversion E; subst. split; [lia|]. split; [apply Happ|lia].
+Qed.
+
 (* a = the bytes the operation accepted; b = Buffered afterwards *)
 Definition wobs_law (op : val) (ret : list val) (a : bytes) (b : Z) : Prop :=
   match op, ret with
@@ -954,6 +988,9 @@ Definition wobs_law (op : val) (ret : list val) (a : bytes) (b : Z) : Prop :=
   | VL [VZ 3; VB d], [VZ n; VZ e] => a = firstn (Z.to_nat n) d /\ 0 <= n <= blen d /\ (n < blen d -> e <> 0)
   | VL [VZ 2; VZ c], [VZ e] => a = (if e =? 0 then [c] else [])
   | VL [VZ 4], [VZ e] => a = [] /\ (e = 0 -> b = 0)
+  | VL [VZ 7; VZ r], [VZ n; VZ e] =>
+    let enc := if r <? 128 then [r mod 256] else encode_rune r in
+    a = firstn (Z.to_nat n) enc /\ 0 <= n <= blen enc /\ (n < blen enc -> e <> 0)
   | VL [VZ 6; src], [VZ n; VZ e] =>
     exists sc, dec_script src = Some sc /\ a = firstn (Z.to_nat n) (script_stream sc) /\ 0 <= n <= blen (script_stream sc)
   | _, _ => False
@@ -969,11 +1006,11 @@ Fixpoint wtrace_ok (A : bytes) (ops obs : list val) {struct ops} : Prop :=
 Lemma wall_len s : WInv s -> wtotal s = blen (wall s).
 Proof. unfold WInv, WInvN, wall. intros (H & _). rewrite blen_app. lia. Qed.
 
-Lemma writer_step_S op s o s' : WInv s -> writer_step op s = Some (o, s') ->
+Lemma writer_step_S op s o s' : WInv s -> writer_step false op s = Some (o, s') ->
   WInv s' /\ exists ret a, o = VL [VL ret; VZ (wtotal s'); VZ (blen (wout s')); VZ (blen (wbuf s'))] /\
                           wobs_law op ret a (blen (wbuf s')) /\ wall s' = wall s ++ a.
 Proof.
-  intros HI Hstep. destruct (writer_step_inv op s o s' HI Hstep) as [HI1 _]. split; [exact HI1|].
+  intros HI Hstep. destruct (writer_step_inv false op s o s' HI Hstep) as [HI1 _]. split; [exact HI1|].
   revert Hstep. unfold writer_step.
   destruct op as [z|b|l]; try discriminate.
   destruct l as [|[tag| |] l]; try discriminate.
@@ -981,6 +1018,10 @@ Proof.
   repeat (destruct p as [p|p|]; try discriminate).
   all: destruct l as [|x [|? ?]]; try discriminate.
   all: try (destruct x as [c|d|src]; try discriminate).
+  - (* 7 WriteRune *) destruct (w_write_rune c s) as [[n e] s1] eqn:E. intros H; inversion H; subst.
+    destruct (w_write_rune_wall c s n e s' HI E) as (Hn & Hw & He).
+    eexists [VZ n; VZ e], _. split; [reflexivity|]. split; [|exact Hw].
+    unfold wobs_law. split; [reflexivity|split; assumption].
   - (* 3 WriteString *) destruct (w_write_string d s) as [[n e] s1] eqn:E. intros H; inversion H; subst.
     destruct (w_write_gen_wall false d s n e s' HI E) as (Hn & Hw & He).
     exists [VZ n; VZ e], (firstn (Z.to_nat n) d). split; [reflexivity|]. split; [|exact Hw].
@@ -1004,26 +1045,26 @@ Proof.
     split; [reflexivity|split; assumption].
 Qed.
 
-Theorem writer_run_S : forall ops s obs, WInv s -> writer_run ops s = Some obs ->
+Theorem writer_run_S : forall ops s obs, WInv s -> writer_run false ops s = Some obs ->
   wtrace_ok (wall s) ops obs.
 Proof.
   induction ops as [|op ops IH]; intros s obs HI; cbn [writer_run].
   - intros E; inversion E; subst. exists (wbuf s). reflexivity.
-  - destruct (writer_step op s) as [[o s1]|] eqn:Es; [|discriminate].
+  - destruct (writer_step false op s) as [[o s1]|] eqn:Es; [|discriminate].
     destruct (writer_step_S op s o s1 HI Es) as [HI1 [ret [a [Ho [HL Hw]]]]].
-    destruct (writer_run ops s1) as [os|] eqn:Er; [|discriminate].
+    destruct (writer_run false ops s1) as [os|] eqn:Er; [|discriminate].
     intros E; inversion E; subst. cbn [wtrace_ok]. exists a. split; [exact HL|]. split.
     + rewrite <- Hw. apply wall_len. exact HI1.
     + rewrite <- Hw. apply (IH s1 os HI1 Er).
 Qed.
 
 Theorem writer_stream size sink ops obs :
-  writer_run ops (new_writer size sink) = Some obs -> wtrace_ok [] ops obs.
+  writer_run false ops (new_writer size sink) = Some obs -> wtrace_ok [] ops obs.
 Proof.
   intros Hr. apply (writer_run_S ops (new_writer size sink) obs (new_writer_inv size sink) Hr).
 Qed.
 
 Lemma writer_stream_example :
-  exists obs, writer_run [VL [VZ 1; VB [1;2;3;4;5;6;7]]; VL [VZ 2; VZ 8]; VL [VZ 6; VL [VL [VB [9;10;11]; VZ 1]]]; VL [VZ 3; VB [12;13]]; VL [VZ 4]]
+  exists obs, writer_run false [VL [VZ 1; VB [1;2;3;4;5;6;7]]; VL [VZ 2; VZ 8]; VL [VZ 6; VL [VL [VB [9;10;11]; VZ 1]]]; VL [VZ 3; VB [12;13]]; VL [VZ 4]]
                          (new_writer 4 [(2, 0); (5000, 0); (1, 8)]) = Some obs.
 Proof. eexists. vm_compute. reflexivity. Qed.
